@@ -80,6 +80,8 @@ def make_grammars(tier, seed):
     n = 500 if tier == "quick" else 3000
     for _ in range(n):
         gs.append(GR.random_grammar(rng))
+    for _ in range(n):
+        gs.append(GR.merge_family(rng))
     return gs, rng
 
 
